@@ -32,7 +32,7 @@ E1, three complete enumerations on the real TokenParser / StringArgs / ArgvArgs:
     both quote kinds, non-ASCII) are expressible and are demanded to round-trip.
 
 (c) equivalence: generated command lines (all sequences up to length 3 (quick) / 4 (thorough) over a pool
-    of 18 tokens: options in every spelling (one that takes an optional value among them), values with blanks/quotes/backslashes, '', '--', command
+    of 19 tokens: options in every spelling (one that takes an optional value among them), the built-in `help` command, values with blanks/quotes/backslashes, '', '--', command
     names, an unknown option, -h) against three small formats, strict and lenient, three quoting styles:
     StringArgs(quoted line) vs ArgvArgs(["prog"] + tokens) must give the identical outcome (all Args views,
     or exception class + message) through DefaultArgsParser, the identical resolution (command + views,
@@ -76,7 +76,7 @@ BOUNDS_B = {
     "thorough": [(4, 1, "full"), (2, 2, "full"), (1, 5, "full"), (2, 3, "full"), (3, 2, "full")],
 }
 POOL_C = ["a b", "it's", 'q"x', "", "x=y", "--flag", "-f", "-vX Y", "--val=a b", "--val", "--", "é\t", "b\\\\",
-          "--nope", "srv", "7", "-h", "--name"]
+          "--nope", "srv", "7", "-h", "--name", "help"]
 BLOCK = 1024          # items per watchdog period
 BLOCK_BUDGET = 10.0   # seconds for one block (normal: ~0.01 s for strings, ~1 s for the command lines of part (c))
 SINGLE_BUDGET = 3.0   # seconds for one item when confirming (normal: ~10 us / ~1 ms)
@@ -460,13 +460,44 @@ def check_c(case):
 
     def resolve(ra):
         r = app.resolve_command(ra)
-        return [r.command.full_name, views(r.args)]
+        flat = []
+        for v in r.args.arguments(False).values():
+            flat.extend(v if isinstance(v, list) else [v])
+        return [r.command.full_name, views(r.args), flat]
 
     r1 = _outcome(lambda: resolve(sa))
     r2 = _outcome(lambda: resolve(aa))
     _TALLY["resolve:%s" % (r2[0] if isinstance(r2, list) else r2["raised"])] += 1
     if r1 != r2:
         return [report.viol("equiv:resolve", "resolution differs between the command string and the argv list", case, r2, r1)]
+    if tokens and tokens[0] == "help":
+        # the resolver the built-in help command uses to find the command it describes (it drops the leading `help`)
+        from clikit.resolver.help_resolver import HelpResolver
+
+        def hresolve(ra):
+            r = HelpResolver().resolve(ra, app)
+            flat = []
+            for v in r.args.arguments(False).values():
+                flat.extend(v if isinstance(v, list) else [v])
+            return [r.command.full_name, views(r.args), flat]
+
+        h1 = _outcome(lambda: hresolve(sa))
+        h2 = _outcome(lambda: hresolve(aa))
+        _TALLY["help-resolve:%s" % (h2[0] if isinstance(h2, list) else h2["raised"])] += 1
+        if h1 != h2:
+            return [report.viol("equiv:help-resolve", "the help resolver resolves the command string and the argv list differently", case, h2, h1)]
+        if sa.tokens != tokens or aa.tokens != tokens:
+            return [report.viol("help-resolve:caller-tokens-altered", "the help resolver altered the caller's raw arguments", case, tokens, [sa.tokens, aa.tokens])]
+        if isinstance(h2, list) and [v for v in h2[2] if v not in tokens]:
+            return [report.viol("resolve:value-is-no-token:help-resolver", "the help resolver handed on positional values that are not tokens of the line",
+                                case, tokens, h2[2])]
+    if isinstance(r2, list):
+        # a positional value is one token of the line, whole: nothing between the tokeniser and the command splits, joins or
+        # re-reads the tokens (all arguments of the application are untyped)
+        odd = [v for v in r2[2] if v not in tokens]
+        if odd:
+            return [report.viol("resolve:value-is-no-token", "the resolved command got positional values that are not tokens of the line", case,
+                                tokens, r2[2])]
     return []
 
 
@@ -670,7 +701,7 @@ def main():
     elif skipped:
         rep.set("stopped", "violations were found before the larger boxes of part (b) were reached; those were not run")
     rep.set("rule", "(a) all strings <= %d over 7 characters; (b) all expressible token lists in the boxes x all quote styles per token x 16 layouts; "
-                    "(c) all lines <= %d tokens over an 18-token pool x 3 quoting styles (x 3 formats x strict/lenient + resolution).  non-trivial = "
+                    "(c) all lines <= %d tokens over a 19-token pool x 3 quoting styles (x 3 formats x strict/lenient + resolution).  non-trivial = "
                     "(a) strings containing a quote or a backslash, (b) command strings with at least one token that needs quotes (empty, whitespace, "
                     "quote or backslash inside), (c) lines with at least one such token and at least one token starting with '-'" % (la, lc))
     rep.sample({"part": "a", "string": "a\\"})
